@@ -21,7 +21,7 @@ LEVEL_TEXT = ("For each listed n the linear map is decided by enumerating its ba
               "for that n); generated real games then test that the function really is that linear map (efficiency, symmetry, "
               "null player, linearity). The statement's per-n symbolic proof is replaced by exhaustive basis extraction.")
 LEVEL_NOTE = ("Trusted: itertools.permutations-based definition in vp/oracles.py (n<=7), closed form beyond, Fraction arithmetic. "
-              "Float tolerance 32*2^n*eps*scale. Basis n<=6 quick, n<=9 thorough; random games to n=10.")
+              "Float tolerance 32*2^n*eps*scale. Basis n<=6 quick, n<=9 thorough; random games to n=10 with all relations, n=11..13 for value / efficiency / entry points; repeated calls on one object.")
 TECHNIQUE = "property-based testing: exhaustive basis enumeration vs n!-orderings oracle + Hypothesis metamorphic relations (permutation, linearity, null player)"
 ASSUMPTIONS = ["float64 evaluation: equality within 32*2^n*eps*max|v|", "n<=10 for all relations; n = 11..13 for value / efficiency / entry points"]
 
